@@ -55,6 +55,12 @@ RULE = ("pairing sets over all loaded transports (IP with/without Connection key
         "regeneration, link drops -> reconnect -> re-subscription, catch-up poll after an advertisement = GetAllParams); the process ends by shutdown() or is killed (its tasks die); oracle: after the restart the "
         "pairing holds exactly what the live pairing held when the process ended (c#, s#, key, database with values) and - where the live pairing had taken them over - the accessory's own counter / the advertised "
         "number / the key the accessory generated. "
+        "lives in which little or nothing is heard of the accessory (stream cache-quiet, BLE; directed + random, 2-4 lives, pairing loaded by load_pairing or by load_data from a pairing file, radio in / out of range): "
+        "the pairing is loaded while NO advertisement is known (command line tool, sleepy accessory) or after one arrived (same s# / counter moved on while the controller was down), whole lives with no radio traffic, polls "
+        "(async_populate_accessories_state with / without force, list_accessories_and_characteristics) with nothing advertised before them (the accessory cannot be found: a legitimate answer) or with the advertisement arriving "
+        "while the poll waits for one, the accessory's encrypted broadcast as the FIRST thing heard after the restart; in every whole-life stream the view compared across the restart now includes what the restarted pairing "
+        "TELLS about the accessory while nothing has been heard of it - pairing.description (BLE: the advertisement rebuilt from the cache entry) must carry exactly the saved c# and s# - and, in cache-quiet, what it DOES with "
+        "them: a broadcast with the successor of the saved s# sealed with the saved key reaches the pairing's listeners. "
         "caller-chosen strings that become keys or file-name components (streams key-strings / cache-keys): aliases - and pairing-file names, folders that do not exist yet, cache-file names, cache keys - drawn from "
         "ASCII, empty / blank, very long (to 68 kB), whitespace, control characters, path-like, JSON-special and escaped spellings, non-BMP, and the unicode classes in which equivalent texts differ as strings "
         "(precomposed vs combining sequences, singleton decompositions such as U+2126 / U+212B / CJK compatibility ideographs, composition exclusions, Hangul syllables vs jamo, reordered marks, compatibility forms, "
@@ -68,7 +74,8 @@ RULE = ("pairing sets over all loaded transports (IP with/without Connection key
         "every repository fixture, histories of CharacteristicCacheFile operations with restarts and lost/corrupted files - implementation vs Lean model attribute by attribute; for dictionaries inside the theorem's hypotheses the restart oracle is checked on the implementation. "
         "non-trivial = distinct (pairing-set shape, crash point) / (fixture, check) / prefix length / (transport kinds, writer, lives) / (initial cache state, transport, construction, op kinds) / "
         "(initial cache state, transport, construction, radio, way the process ends, per life the op kinds with the direction each number moved) / "
-        "(string classes and the normalisations relating the family, writer, lives, own file name / folder / cache file)")
+        "(string classes and the normalisations relating the family, writer, lives, own file name / folder / cache file) / "
+        "(cache-quiet: initial cache state, construction, radio, way the process ends, loader, what was heard before each load, per life the op kinds)")
 TRUSTED = ["POSIX rename atomicity of os.replace for a process crash", "orjson/commentjson parse what they wrote; a strict prefix of an object's encoding does not parse (checked exhaustively on this run's files)"]
 ASSUMPTIONS = ["file effects are observed by replacing open/os.replace/os.fsync in the namespace of aiohomekit.controller.controller with a recording virtual file system; "
                "crash states are materialised in a temporary directory outside /repo and /verif",
@@ -80,6 +87,10 @@ ASSUMPTIONS = ["file effects are observed by replacing open/os.replace/os.fsync 
                "the pair-verify exchange is replaced by its result (session keys + the HKDF of the shared secret, computed by the harness's own HKDF-SHA512); the link has no GATT attribute table, so the "
                "in-range accessory always advertises the configuration number the pairing holds (configuration-number changes are explored with the accessory out of range and over mDNS); "
                "each trial of that stream runs on its own virtual-time event loop, killed tasks = process death",
+               "stream cache-quiet: same radio stand-in; the broadcast key handed to restore_accessories_state is taken to be the key the accessory generated in an earlier session (the accessory seals its broadcasts "
+               "with it); an encrypted broadcast is injected at BleController._device_detected like an advertisement; which exception reports an accessory that cannot be found / reached "
+               "(AccessoryNotFoundError, AccessoryDisconnectedError, the radio's BleakError) is not judged here; the first-heard-broadcast oracle is applied only when the harness's accessory counter equals the saved "
+               "state number, its successor is below 65535 (the library's roll-over handling of broadcasts is not this property's) and nothing else happened in that life",
                "accessory-database round trip: modelled (Model/EntityMap.lean: Characteristic construction from a dictionary incl. the metadata-table defaults, the constructor's default value, set_value, "
                "to_accessory_and_service_list, services and links, the write-through cache) and proved (C20_char_roundtrip/_restart/_reachable_roundtrip, C20_accessory_roundtrip, C20_cache_*); tied by the "
                "streams em-char / em-acc / em-cache of harness/c20_entity.py.  Outside the model: the JSON text layer (hkjson) and CPython dicts; cache-prefix behaviour is checked on the implementation"]
@@ -210,6 +221,10 @@ def run(ctx: Ctx, driver: Driver):
         cache_keys(ctx, rng, tmpdir)
         ctx.notes.append(f"streams key-strings + cache-keys: {ctx.dist['key-strings:family'] + ctx.dist['key-strings:single'] + ctx.dist['key-strings:random']} + "
                          f"{ctx.dist['cache-keys:family'] + ctx.dist['cache-keys:random']} trials in {time.monotonic() - t0:.1f} s")
+        t0 = time.monotonic()
+        cache_quiet(ctx, rng, tmpdir)
+        ctx.notes.append(f"stream cache-quiet: {ctx.dist['cache-quiet:out-of-range'] + ctx.dist['cache-quiet:in-range']} trials in {time.monotonic() - t0:.1f} s; "
+                         f"descriptions rebuilt from the cache checked: {ctx.dist['cache-quiet:radio:description-from-cache-checked']}, first-heard broadcasts checked: {ctx.dist['cache-quiet:radio:broadcast-after-restart-checked']}")
     finally:
         shutil.rmtree(tmpdir, ignore_errors=True)
         loop.close()
@@ -1088,19 +1103,55 @@ def cache_trial(out, loop, tmpdir, dbs, case):
             return False
         radio = Radio(case.get("radio", "out-of-range"), the_accessory, pd) if transport == "BLE" else None
         async with process_life(case["how"], cache, radio) as c:
+            backend = c.transports.get(TransportType[tname]) if case["how"] == "toplevel" else c
+            prev = exp["view"]
+            # ---- has anything been heard of the accessory when the pairing is loaded?  (stream cache-quiet: `seen_first`; every other
+            # stream: never - the scanner stand-in sees nothing by itself)
+            seen = (case.get("seen_first") or [])[n - 1:n]
+            seen = seen[0] if seen else None
+            saved_cn = exp["known"].get("config_num", prev["config_num"] if prev is not None else None)
+            saved_sn = exp["known"].get("state_num", prev["state_num"] if prev is not None else None)
+            heard = {"any": False}
+            if seen and transport == "BLE" and backend is not None and isinstance(saved_cn, int) and saved_cn >= 0:
+                # the accessory's periodic advertisement reaches the scanner BEFORE the pairing is loaded: with the state number it
+                # had ('same') or with its counter moved on while the controller was down ('moved')
+                g0 = the_accessory.gsn or saved_sn or 1
+                if seen == "moved":
+                    for _ in range(rng.choice([1, 1, 2, 7])):
+                        g0 = gsn_succ(g0)
+                the_accessory.gsn = g0
+                try:
+                    backend._device_detected(*ble_adv(pid, g0, saved_cn % 256))
+                except Exception as e:  # noqa: BLE001
+                    out.violation("cache/update-raises", f"{step}: an advertisement of {pid} (s#={g0}, c#={saved_cn % 256}) before its pairing is loaded raised {type(e).__name__}: {str(e)[:100]}", case)
+                    return False
+                heard["any"] = True
+                served["advertised-before-load"] = served.get("advertised-before-load", 0) + 1
+            loader = case.get("load", "load_pairing") if case["how"] == "toplevel" else "load_pairing"
             try:
-                pairing = c.load_pairing("alias", copy.deepcopy(pd))
+                if loader == "load_data":
+                    # the pairing file of the previous life (written by an independent writer), read by Controller.load_data
+                    pfile = pathlib.Path(d, "pairings.json")
+                    pfile.write_text(json.dumps({"alias": pd}, ensure_ascii=False, indent=1), encoding="utf-8")
+                    c.load_data(str(pfile))
+                    pairing = c.aliases.get("alias")
+                else:
+                    pairing = c.load_pairing("alias", copy.deepcopy(pd))
             except Exception as e:  # noqa: BLE001
-                out.violation("restart/load-pairing-raises", f"{step}: load_pairing of a valid {transport} pairing raised {type(e).__name__}: {str(e)[:80]}", case)
+                out.violation("restart/load-pairing-raises", f"{step}: {loader} of a valid {transport} pairing raised {type(e).__name__}: {str(e)[:80]}", case)
                 return False
             if pairing is None:
-                out.violation("restart/load-pairing-dropped", f"{step}: load_pairing of a valid {transport} pairing returned nothing", case)
+                out.violation("restart/load-pairing-dropped", f"{step}: {loader} of a valid {transport} pairing returned nothing", case)
                 return False
-            backend = c.transports.get(TransportType[tname]) if case["how"] == "toplevel" else c
             # ---- what survived the restart
-            got = view_of(pairing)
+            try:
+                got = view_of(pairing)
+                desc = getattr(pairing, "description", None)
+                told = None if desc is None else {"config_num": getattr(desc, "config_num", None), "state_num": getattr(desc, "state_num", None)}
+            except Exception as e:  # noqa: BLE001
+                out.violation("cache/restored-view-raises", f"{step}: reading the restored {transport} pairing's accessory database / numbers raised {type(e).__name__}: {str(e)[:100]}", case)
+                return False
             if n > 1 or exp["known"]:
-                prev = exp["view"]
                 bad = None
                 if got is None:
                     bad = "the pairing has no accessory database at all"
@@ -1118,7 +1169,22 @@ def cache_trial(out, loop, tmpdir, dbs, case):
                     out.violation("cache/toplevel-not-persisted", f"{step}: {transport} pairing {pid}, cache file initially '{init}', controller built as {case['how']}, previous life did {case['ops'][n - 2] if n > 1 else 'nothing (warm cache file)'} "
                                   f"and ended with {describe_view(prev) if prev is not None else 'the warm entry'}; after the restart {bad}; cache file: {'missing' if not path.exists() else str(path.stat().st_size) + ' bytes'}", case)
                     return False
+                # ... and what the restarted pairing TELLS about the accessory while nothing has been heard of it in this life: the
+                # description it holds (BLE: the advertisement rebuilt from the cache entry - what the controller works with until the
+                # accessory is heard again) can only come from what was saved, so its c# / s# are the saved ones
+                if told is not None and not heard["any"]:
+                    for fld, want in (("config_num", saved_cn), ("state_num", saved_sn)):
+                        if want is not None and told[fld] != want:
+                            out.violation("cache/restored-description-differs", f"{step}: {transport} pairing {pid}, cache file initially '{init}', controller built as {case['how']}, loaded by {loader} while nothing "
+                                          f"had been heard of the accessory; saved: c#={saved_cn} s#={saved_sn} (previous life did {case['ops'][n - 2] if n > 1 else 'nothing (warm cache file)'}); the restarted pairing holds them "
+                                          f"(config_num={got['config_num'] if got else None}, state_num={got['state_num'] if got else None}) but the description it rebuilt from the cache says "
+                                          f"c#={told['config_num']} s#={told['state_num']}: {fld} is {told[fld]!r}, saved {want!r}", case)
+                            return False
+                    served["description-from-cache-checked"] = served.get("description-from-cache-checked", 0) + 1
             # ---- this life's history
+            delivered = []
+            if case.get("listen"):
+                pairing.dispatcher_connect(lambda res: delivered.append(dict(res)))
             net = IpNetStub() if transport == "IP" else CoapNetStub()
             if transport in ("IP", "CoAP"):
                 pairing.connection = net
@@ -1133,6 +1199,7 @@ def cache_trial(out, loop, tmpdir, dbs, case):
                     acc.set_db(pairing.accessories.serialize())
 
             async def advertise(gsn, cn):
+                heard["any"] = True
                 backend._device_detected(*ble_adv(pid, gsn, cn))
                 await settle()
 
@@ -1156,7 +1223,7 @@ def cache_trial(out, loop, tmpdir, dbs, case):
                         k.pop("broadcast_key", None)
                     exp["known"] = k
 
-            for op in ops:
+            for idx, op in enumerate(ops):
                 kind = op[0]
                 gen0 = acc.served["generate-broadcast-key"] if acc is not None else 0
                 try:
@@ -1167,6 +1234,10 @@ def cache_trial(out, loop, tmpdir, dbs, case):
                         if acc is not None:
                             acc.set_db(dbmap[dbn])
                             acc.gsn = sn or 1
+                            if case.get("acc_key_from_restore"):
+                                # (stream cache-quiet) what an earlier process handed over is the accessory's own state: the key it generated
+                                acc.key = bytes.fromhex(key) if key else None
+                                acc.bcast_since_link = False
                     elif kind in ("list", "populate"):
                         net.db = dbmap[op[1]]
                         if kind == "list":
@@ -1214,6 +1285,66 @@ def cache_trial(out, loop, tmpdir, dbs, case):
                         if cn != k.get("config_num"):
                             k.pop("config_num", None)  # a changed c# with the accessory unreachable: which c# the pairing goes on with is not the harness's call
                         exp["known"] = k
+                    elif kind in ("pollq", "pollw") and acc is not None and pairing.accessories is not None:
+                        # the application polls although the accessory has NOT just advertised.  "pollq": nothing is heard during the
+                        # poll either (a sleepy accessory, the command line tool right after start-up): unless an advertisement is
+                        # already known, the library reports that it cannot find the accessory - a legitimate answer that must leave
+                        # the saved state alone; "pollw": the advertisement arrives while the poll is waiting for one
+                        from aiohomekit.exceptions import AccessoryDisconnectedError, AccessoryNotFoundError
+                        from bleak.exc import BleakError
+                        if kind == "pollw" and not virtual:
+                            continue
+                        if op[1] == "list":
+                            job = pairing.list_accessories_and_characteristics()
+                        else:
+                            job = pairing.async_populate_accessories_state(force_update=bool(op[1]))
+                        task = asyncio.ensure_future(job)
+                        if kind == "pollw":
+                            await asyncio.sleep(1.0)
+                            if acc.gsn is None:
+                                acc.gsn = saved_sn or 1
+                            await advertise(acc.gsn, pairing.config_num % 256)
+                        try:
+                            await task
+                            served[kind + "-answered"] = served.get(kind + "-answered", 0) + 1
+                        except (AccessoryNotFoundError, AccessoryDisconnectedError, BleakError):
+                            # (which error reports an accessory that is not there is not this property's business; the radio's own
+                            # BleakError comes through list_accessories_and_characteristics as it is)
+                            served[kind + "-not-reached"] = served.get(kind + "-not-reached", 0) + 1
+                        await settle()
+                        note_ble(gen0)
+                    elif kind == "bcastq" and acc is not None and pairing.accessories is not None:
+                        # an encrypted broadcast notification reaches the scanner (directly or relayed by a proxy - the radio mode does
+                        # not matter): the accessory holds a broadcast key and has no link.  When it is the FIRST thing heard of the
+                        # accessory in this life, the accessory's counter was the saved state number and the key is the saved key, the
+                        # notification (successor of the saved number, sealed with the saved key) can be opened with exactly what the
+                        # cache gave back - it must reach the listeners
+                        num = ("bool", "uint8", "uint16", "uint32", "int", "float")
+                        ok = lambda ch: "pr" in ch.get("perms", []) and ch.get("format") in num  # noqa: E731
+                        bc = sorted(i for i, ch in acc.chars.items() if i <= 65535 and ch.get("broadcast_events") and ok(ch)) or sorted(i for i, ch in acc.chars.items() if i <= 65535 and "ev" in ch.get("perms", []) and ok(ch))
+                        if acc.key is None or acc.gsn is None or (radio is not None and radio.link is not None) or not bc:
+                            continue
+                        first = not heard["any"] and told is not None and all(o[0] == "pollq" for o in ops[:idx])
+                        counter_was = acc.gsn
+                        if not getattr(acc, "bcast_since_link", False):
+                            acc.bcast_since_link = True
+                            acc.gsn = gsn_succ(acc.gsn)
+                        iid = bc[rng.randrange(len(bc))]
+                        n_before = len(delivered)
+                        heard["any"] = True
+                        backend._device_detected(*ble_encrypted_notification(pid, acc, iid))
+                        acc.served["broadcast-notification"] += 1
+                        await settle()
+                        if (first and case.get("listen") and isinstance(saved_sn, int) and counter_was == saved_sn and acc.gsn == saved_sn + 1 and saved_sn + 1 < 65535
+                                and exp["known"].get("broadcast_key") == acc.key.hex() and exp["known"].get("state_num") == saved_sn):
+                            served["broadcast-after-restart-checked"] = served.get("broadcast-after-restart-checked", 0) + 1
+                            if not any((1, iid) in res for res in delivered[n_before:]):
+                                out.violation("cache/saved-state-not-in-use", f"{step}: {transport} pairing {pid} restarted with nothing heard of the accessory; saved: s#={saved_sn}, broadcast key {acc.key.hex()[:8]}..; the first "
+                                              f"thing heard is the accessory's encrypted broadcast of characteristic {iid} with s#={acc.gsn} (the successor of the saved number) sealed with the saved key: it was not "
+                                              f"delivered to the pairing's listeners - the restarted pairing does not work with the saved state number / key (pairing.state_num={pairing.state_num}, "
+                                              f"description s#={getattr(pairing.description, 'state_num', None)} c#={getattr(pairing.description, 'config_num', None)})", case)
+                                return False
+                        note_ble(gen0)
                     elif kind == "bcast" and in_range and pairing.accessories is not None:
                         # an encrypted broadcast notification (HAP-BLE 7.4.7.2): only an accessory that generated a broadcast key
                         # and has no link sends one; its counter moves on (once per disconnected period)
@@ -1553,6 +1684,121 @@ def cache_numbers(ctx, rng, tmpdir):
                     ctx.dist["cache-numbers:s#:" + o[5]] += 1
         for k, v in served.items():
             ctx.dist["cache-numbers:radio:" + k] += v
+        for sig, what, c in out.found[:2]:
+            ctx.violation(sig, what, c)
+        if i == 0:
+            ctx.sample(case)
+
+
+# ---- lives in which little or nothing is heard of the accessory: what a restarted pairing works with comes from the cache alone --------
+
+def quiet_ops(rng, radio, blenames, names, st, first):
+    """one life's history for the 'cache-quiet' stream (BLE)"""
+    key = lambda: rng.choice([None, "%064x" % rng.getrandbits(256), "%064x" % rng.getrandbits(256), "%064x" % rng.getrandbits(256)])  # noqa: E731
+    ops = []
+    if first:
+        cn = rng.choice(CN_EDGES["BLE"]) if rng.random() < 0.4 else rng.randrange(1, 256)
+        sn = rng.choice([None, cn, cn + 1] + list(SN_EDGES) + [rng.randrange(1, 65536) for _ in range(12)])
+        dbn = rng.choice(blenames) if blenames and (radio == "in-range" or rng.random() < 0.6) else rng.choice(names)
+        ops.append(["restore", dbn, cn, key(), sn])
+        st.update(sn=sn, cn=cn)
+    for j in range(rng.choice([0, 0, 1, 1, 2, 3] if first else [0, 1, 1, 2, 2, 3, 4])):
+        r = rng.random()
+        if not first and j == 0 and r < 0.3:
+            ops.append(["bcastq"])  # (the first thing heard after the restart is worth most)
+        elif r < 0.30:
+            ops.append(["pollq", rng.choice([False, True, True, "list"])])
+        elif r < 0.50:
+            ops.append(["bcastq"])
+        elif r < 0.60:
+            ops.append(["pollw", rng.choice([False, True])])
+        elif r < 0.75:
+            how, gsn = next_number(rng, st["sn"], 65535, SN_EDGES)
+            ops.append(["advn", gsn, None, how, "held"])
+            st["sn"] = gsn
+        elif r < 0.80:
+            d = rng.randrange(1, 5)
+            ops.append(["adv", d])
+            st["sn"] = ((st["sn"] or 0) + d - 1) % 65535 + 1
+        elif r < 0.86:
+            cn = rng.randrange(1, 256)
+            sn = rng.choice([None] + [rng.randrange(1, 65536) for _ in range(5)])
+            dbn = rng.choice(blenames) if blenames and (radio == "in-range" or rng.random() < 0.6) else rng.choice(names)
+            ops.append(["restore", dbn, cn, key(), sn])
+            st.update(sn=sn, cn=cn)
+        elif radio == "in-range":
+            ops.append(rng.choice([["poll", False], ["poll", True], ["subscribe", rng.choice([1, 2])], ["event"], ["drop"], ["bcast"]]))
+        else:
+            ops.append(["pollq", rng.choice([False, True])])
+    return ops
+
+
+def directed_quiet_histories(names, blenames):
+    """(init, radio, load, seen_first per life, ops per life): once each whatever the seed"""
+    b = (blenames or names)[0]
+    k1, k2 = "5a" * 32, "c3" * 32
+    out = []
+    for radio in ("out-of-range", "in-range"):
+        out += [
+            ("none", radio, "load_pairing", [None, None], [[["restore", b, 2, k1, 1234]]]),
+            ("none", radio, "load_data", [None, None, None], [[["restore", b, 2, k1, 1234]], [["pollq", True]]]),
+            ("warm-other", radio, "load_pairing", [None, None, None], [[["restore", b, 3, k1, 40000]], [["bcastq"], ["pollq", False]]]),
+            ("none", radio, "load_data", [None, None, None, None], [[["restore", b, 255, k2, 300]], [["pollq", False], ["bcastq"], ["bcastq"]], [["bcastq"]]]),
+            ("warm-same", radio, "load_pairing", [None, None, None], [[["restore", b, 9, None, 17]], [["pollw", True]]]),
+            ("none", radio, "load_pairing", [None, "same", None], [[["restore", b, 5, k1, 65534]], [["pollq", True], ["bcastq"]]]),
+            ("none", radio, "load_data", [None, "moved", None, "same"], [[["restore", b, 1, k2, 1]], [["pollq", False]], []]),
+            ("none", radio, "load_pairing", [None, None, None], [[["restore", b, 7, k1, 7]], [["bcastq"]]]),
+            ("none", radio, "load_pairing", [None, None, None], [[["restore", b, 4, k1, None]], [["pollq", True], ["bcastq"]]]),
+            ("none", radio, "load_pairing", [None, None, None, None], [[["restore", b, 200, k1, 100], ["advn", 101, None, "next", "held"]], [], [["pollw", False], ["advn", 102, None, "next", "held"]]]),
+        ]
+    return out
+
+
+def cache_quiet(ctx, rng, tmpdir):
+    """stream 'cache-quiet': see RULE"""
+    if not HAVE["BLE"]:
+        ctx.notes.append("cache-quiet: this installation has no BLE transport")
+        return
+    dbs = accessory_dbs()
+    if not dbs:
+        return
+    names = [n for n, _ in dbs]
+    blenames = [n for n, _ in ble_flavoured(dbs)]
+    plan = []
+    for i, (init, radio, load, seen, ops) in enumerate(directed_quiet_histories(names, blenames)):
+        if radio == "in-range" and not blenames:
+            continue
+        plan.append((init, "backend:BLE" if i % 4 == 3 and load == "load_pairing" else "toplevel", radio, ("shutdown", "kill")[i % 2], load, seen, ops, True))
+    for _ in range(ctx.budget(60, 1200)):
+        init = rng.choice(["none", "none", "warm-other", "warm-same", rng.choice(CACHE_INITS)])
+        radio = rng.choice(["out-of-range", "in-range"] if blenames else ["out-of-range"])
+        st = {"sn": None, "cn": 1 if init == "warm-same" else None}
+        nl = rng.choice([1, 2, 2, 3])
+        ops = [quiet_ops(rng, radio, blenames, names, st, first=(k == 0)) for k in range(nl)]
+        seen = [None] + [rng.choice([None, None, None, None, "same", "moved"]) for _ in range(nl)]
+        how = rng.choice(["toplevel", "toplevel", "toplevel", "backend:BLE"])
+        plan.append((init, how, radio, rng.choice(["shutdown", "kill"]), rng.choice(["load_pairing", "load_data"]) if how == "toplevel" else "load_pairing", seen, ops, rng.random() < 0.75))
+    for i, (init, how, radio, teardown, load, seen, ops, listen) in enumerate(plan):
+        pd = rand_pairing(rng, (i % 250) + 1, "BLE")
+        pd["AccessoryPairingID"] = pd["AccessoryPairingID"].upper()
+        case = {"stream": "cache-quiet", "init": init, "transport": "BLE", "how": how, "radio": radio, "teardown": teardown, "load": load, "seen_first": seen, "listen": listen,
+                "acc_key_from_restore": True, "pairing": pd, "ops": ops, "seed": rng.getrandbits(32)}
+        out = Collector()
+        served = cache_trial(out, None, tmpdir, dbs, case) or {}
+        ctx.evaluations += len(ops) + 1
+        ctx.nontrivial.add(("cache-quiet", init, how, radio, teardown, load, tuple(seen), tuple(tuple(o[0] for o in life) for life in ops)))
+        ctx.dist["cache-quiet:" + radio] += 1
+        ctx.dist["cache-quiet:load:" + load] += 1
+        ctx.dist["cache-quiet:lives:%d" % len(ops)] += 1
+        for sf in seen:
+            ctx.dist["cache-quiet:heard-before-load:" + str(sf or "nothing")] += 1
+        for life in ops:
+            if not life:
+                ctx.dist["cache-quiet:op:(silent life)"] += 1
+            for o in life:
+                ctx.dist["cache-quiet:op:" + o[0]] += 1
+        for k, v in served.items():
+            ctx.dist["cache-quiet:radio:" + k] += v
         for sig, what, c in out.found[:2]:
             ctx.violation(sig, what, c)
         if i == 0:
@@ -2344,7 +2590,7 @@ def replay(ctx, driver, c):
         finally:
             loop.close()
         return [f"{sig}: {what}" for sig, what, _ in out.found] or None
-    if not isinstance(c, dict) or c.get("stream") not in ("toplevel-restart", "toplevel-cache", "cache-numbers", "key-strings", "cache-keys"):
+    if not isinstance(c, dict) or c.get("stream") not in ("toplevel-restart", "toplevel-cache", "cache-numbers", "cache-quiet", "key-strings", "cache-keys"):
         return None
     loop = asyncio.new_event_loop()
     asyncio.set_event_loop(loop)
@@ -2358,7 +2604,7 @@ def replay(ctx, driver, c):
         elif c["stream"] == "cache-keys":
             cache_keys_trial(out, tmpdir, c)
         else:
-            cache_trial(out, None if c["stream"] == "cache-numbers" else loop, tmpdir, accessory_dbs(), c)
+            cache_trial(out, None if c["stream"] in ("cache-numbers", "cache-quiet") else loop, tmpdir, accessory_dbs(), c)
     finally:
         shutil.rmtree(tmpdir, ignore_errors=True)
         loop.close()
